@@ -70,6 +70,7 @@ enum FixKind {
 enum AddNewline {
   Leading,
   LeadingSpace,
+  LeadingSemicolon,
   Trailing,
   #[default]
   None,
@@ -111,6 +112,7 @@ impl FixKind {
         let (leading, trailing) = match newline {
           AddNewline::Leading => ("\n", ""),
           AddNewline::LeadingSpace => (" ", ""),
+          AddNewline::LeadingSemicolon => ("; ", ""),
           AddNewline::Trailing => ("", "\n"),
           AddNewline::None => ("", ""),
         };
@@ -154,6 +156,13 @@ fn ends_line(ctx: &Context, pos: SourcePos) -> bool {
     .all(char::is_whitespace)
 }
 
+/// Whether the statement that ends at `pos` is closed by a semicolon.
+fn has_semicolon(ctx: &Context, pos: SourcePos) -> bool {
+  let text_info = ctx.text_info();
+  let index = pos.as_byte_index(text_info.range().start);
+  text_info.text_str()[..index].ends_with(';')
+}
+
 fn is_common_js(ctx: &Context) -> bool {
   ctx.media_type() == MediaType::Cjs
 }
@@ -176,8 +185,10 @@ impl NoNodeGlobalsHandler {
         // away from a `deno-lint-ignore` directive above it.
         let separator = if ends_line(ctx, range.end()) {
           AddNewline::Leading
-        } else {
+        } else if has_semicolon(ctx, range.end()) {
           AddNewline::LeadingSpace
+        } else {
+          AddNewline::LeadingSemicolon
         };
         (SourceRange::new(range.end(), range.end()), separator)
       } else {
